@@ -78,7 +78,9 @@ func main() {
 		evid := fs.String("evidence", "", "evidence file to write")
 		replays := fs.String("replays", "/verif/replays", "replay directory")
 		known := fs.String("known", "/verif/known_findings.json", "known findings file")
+		bounded := fs.String("bounded", "", "results of the bounded stand-ins for this property (JSON written by the bounded test run)")
 		fs.Parse(args[1:])
+		boundedFile = *bounded
 		os.Exit(cmdCheck(g, *prop, *tier, *evid, *replays, *known, loadSecs))
 	default:
 		usage()
@@ -86,6 +88,7 @@ func main() {
 }
 
 var dumpOut string
+var boundedFile string
 
 func cmdDump(g *Gen, fn, ob string, solve bool, timeout int) {
 	names := g.matchFuncs(fn)
@@ -326,6 +329,7 @@ func cmdCheck(g *Gen, prop, tier, evid, replayDir, knownPath string, loadSecs fl
 	}
 	solveAll(append(append([]*Obligation{}, obs...), extra...), timeout, tier == "thorough")
 
+	exit := 0
 	var failed, knownHit []*Obligation
 	nOb, nDis, nCover, nCoverOK := 0, 0, 0, 0
 	bySolver := map[string]int{}
@@ -382,7 +386,6 @@ func cmdCheck(g *Gen, prop, tier, evid, replayDir, knownPath string, loadSecs fl
 	for _, o := range knownHit {
 		fmt.Printf("KNOWN-FINDING: property=%s %s: %s\n", prop, o.Name, knownBy[o.Name].What)
 	}
-	exit := 0
 	var replayPaths []string
 	for _, o := range failed {
 		exit = 1
@@ -394,6 +397,32 @@ func cmdCheck(g *Gen, prop, tier, evid, replayDir, knownPath string, loadSecs fl
 		}
 		fmt.Printf("failed obligation: %s (%s; %s) at %s: %s %s\n", o.Name, o.Result, o.Solver, o.Pos, o.Clause, o.Static)
 		fmt.Printf("VIOLATION property=%s replay=%s%s\n", prop, path, suffix)
+	}
+	// bounded stand-ins (run by check.sh before this program): reported, never counted as proved
+	if boundedFile != "" {
+		var brs []map[string]any
+		if b, err := os.ReadFile(boundedFile); err == nil && json.Unmarshal(b, &brs) == nil {
+			boundedResults[prop] = brs
+			for _, br := range brs {
+				if v, _ := br["violations"].(float64); v > 0 {
+					exit = 1
+					d := filepath.Join(replayDir, prop)
+					os.MkdirAll(d, 0o755)
+					path := filepath.Join(d, "bounded."+safeFile(fmt.Sprint(br["name"]))+".json")
+					wb, _ := json.MarshalIndent(br, "", " ")
+					os.WriteFile(path, wb, 0o644)
+					fmt.Printf("failed bounded stand-in: %v (%v violations in %v cases; bound: %v); first witnesses: %v\n", br["name"], br["violations"], br["cases"], br["bound"], br["witnesses"])
+					fmt.Printf("VIOLATION property=%s replay=%s\n", prop, path)
+				}
+			}
+		} else {
+			exit = 1
+			fmt.Printf("failed bounded stand-in: the bounded run of %s produced no result file (%s)\n", prop, boundedFile)
+			path := filepath.Join(replayDir, prop, "bounded.missing.json")
+			os.MkdirAll(filepath.Dir(path), 0o755)
+			os.WriteFile(path, []byte(`{"note":"the bounded test run did not complete"}`), 0o644)
+			fmt.Printf("VIOLATION property=%s replay=%s no-failing-input-found\n", prop, path)
+		}
 	}
 	wall := time.Since(t0).Seconds() + loadSecs
 	fmt.Printf("govc: property %s tier %s: %d obligations, %d discharged, %d failed, %d known findings, %d covers (%d ok), %d functions, %.1fs\n",
